@@ -394,9 +394,35 @@ def apply_tl(W, op):
             for k in range(i + 1, len(nodes)):
                 if before[i] is before[k] and after[i] is not after[k]:
                     return [("taxon-not-duplicated", "two nodes that shared the taxon %r now reference two different taxa" % (before[i].label,))]
+    elif name == "migrate-memo":
+        W.relist(cur)
+        memo = {}
+        k = 0
+        for t in cur._trees:
+            for tx in N.tree_taxa(t):
+                if tx is not None and tx not in memo:
+                    if op[1] == "all" or k % 2 == 0:
+                        memo[tx] = Taxon(label=tx.label)
+                    k += 1
+        given = dict(memo)
+        nodes = [n for t in cur._trees for n in N.tree_nodes(t) if n.taxon is not None]
+        before = [n.taxon for n in nodes]
+        cur.migrate_taxon_namespace(W.new_ns("empty"), taxon_mapping_memo=memo)
+        for n, b in zip(nodes, before):
+            if b in given and n.taxon is not given[b]:
+                return [("memo-honoured", "a node labelled %r was not moved to the taxon the caller's memo names" % (b.label,))]
     elif name == "reconstruct":
         W.relist(cur)
         cur.reconstruct_taxon_namespace()
+        # a unifying pass over the whole list (unify_taxa_by_label=True is the default): whatever the
+        # namespace held before -- duplicate labels left by 'add' / unify_taxa_by_label=False included --
+        # items with exactly equal labels now sit on one taxon
+        pairs = []
+        for t in cur._trees:
+            pairs.extend(zip(W.rec(t).labels, N.tree_taxa(t)))
+        errs = N.label_function_errors(pairs)
+        if errs:
+            return [("unified-by-label", errs[0])]
     elif name == "update_ns":
         cur.update_taxon_namespace()
     elif name in ("pop", "remove", "del"):
@@ -471,6 +497,9 @@ def _history_tl(case):
         if fails:
             sub = dict(case, ops=case["ops"][: j + 1])
             return [(m, d, _key(sub), sub) for m, d in _dedupe(fails)]
+        if name.endswith("-memo"):
+            # the caller's memo may have put equal labels on different taxa (its right); the history ends here
+            return []
         # the labels now carried are the reference for the next step (a case-insensitive
         # namespace may have replaced 'a' by its existing variant 'A': allowed, see docstring)
         for r in W.recs.values():
@@ -615,6 +644,27 @@ def apply_m(W, op):
         except dperror.TaxonNamespaceReconstructionError:
             return "end"
         return None
+    if name in ("migrate-memo", "reconstruct-memo"):
+        # the caller names the replacement taxon of some (op[1] == "some": every other) or all sequence taxa;
+        # the replacements are fresh Taxon objects that are members of no namespace yet
+        keys = list(m._taxon_sequence_map.keys())
+        memo = {}
+        for i, t in enumerate(keys):
+            if op[1] == "all" or i % 2 == 0:
+                memo[t] = Taxon(label=t.label)
+        given = dict(memo)
+        try:
+            if name == "migrate-memo":
+                m.migrate_taxon_namespace(_mk_ns([], W.cs)[0], taxon_mapping_memo=memo)
+            else:
+                m.reconstruct_taxon_namespace(taxon_mapping_memo=memo)
+        except dperror.TaxonNamespaceReconstructionError:
+            return "end"
+        now = set(id(t) for t in m._taxon_sequence_map.keys())
+        for t, r in given.items():
+            if id(r) not in now:
+                return ("memo-honoured", "the sequence of %r was not re-keyed to the taxon the caller's memo names" % (t.label,))
+        return None
     if name == "update_ns":
         m.update_taxon_namespace()
         return None
@@ -670,6 +720,8 @@ def _history_m(case):
         if fails:
             sub = dict(case, ops=case["ops"][: j + 1])
             return [(m, d, _key(sub), sub) for m, d in _dedupe(fails)]
+        if name.endswith("-memo"):
+            return []
     return []
 
 
@@ -950,6 +1002,7 @@ def tl_alphabet(cs, small=False):
         ops.append(["migrate", n])
         ops.append(["clone", n])
     ops.append(["migrate-nounify", "empty"])
+    ops += [["migrate-memo", "all"], ["migrate-memo", "some"]]
     ops += [["reconstruct"], ["update_ns"], ["pop", "0"], ["pop", "-1"], ["remove", "0"], ["del", "-1"], ["clear"],
             ["scoped_copy"], ["deepcopy"]]
     return ops
@@ -964,6 +1017,7 @@ def m_alphabet():
         ops.append(["migrate", n])
         ops.append(["clone", n])
     ops += [["reconstruct"], ["update_ns"], ["fill_taxa"], ["pack"]]
+    ops += [["migrate-memo", "all"], ["migrate-memo", "some"], ["reconstruct-memo", "all"], ["reconstruct-memo", "some"]]
     for fn in ("add_sequences", "replace_sequences", "update_sequences", "extend_sequences", "extend_sequences+new", "extend_matrix"):
         for k in ("same-ns", "foreign"):
             ops.append(["merge", fn, k])
